@@ -677,6 +677,19 @@ func (c *FuncCtx) evalCall(st *State, n *ast.CallExpr) []Value {
 				fi, ok2 = &FuncInfo{Key: ek, Pkg: c.pkg, Obj: o}, true
 			}
 		}
+		if !ok && ok2 && fi.Decl != nil && fi.Decl.Body != nil && fi.Pkg == c.pkg {
+			// a helper of the same package without a contract: its body is executed in place
+			// (straight-line helpers only: one return path, no loop)
+			var recv Value
+			if recvExpr != nil {
+				recv = c.eval(st, recvExpr)
+			}
+			args := make([]Value, len(n.Args))
+			for i, a := range n.Args {
+				args[i] = c.eval(st, a)
+			}
+			return c.inlineCall(st, fi, recv, args, n)
+		}
 		if !ok || !ok2 {
 			panic(verr("call to %s which has no contract, at %s", key, c.prog.pos(n)))
 		}
@@ -1679,4 +1692,81 @@ func (c *FuncCtx) execRowLoop(fr *frame, n *ast.RangeStmt, rl *RowLoopSpec, ord 
 	}
 	c.assumed = append(c.assumed, fmt.Sprintf("rowloop %d: verified for one generic row; rows of different index are assumed to be disjoint storage (iterations independent)", ord))
 	k(after)
+}
+
+// inlineCall executes the body of an uncontracted helper of the same package in the caller's state.
+func (c *FuncCtx) inlineCall(st *State, fi *FuncInfo, recv Value, args []Value, at *ast.CallExpr) []Value {
+	if c.inlineDepth >= 3 {
+		panic(verr("call to %s which has no contract (inlining depth exceeded), at %s", fi.Key, c.prog.pos(at)))
+	}
+	sig := fi.Obj.Type().(*types.Signature)
+	if sig.Variadic() {
+		panic(verr("call to %s which has no contract (variadic helper), at %s", fi.Key, c.prog.pos(at)))
+	}
+	c.inlineDepth++
+	defer func() { c.inlineDepth-- }()
+	depth := len(st.scope)
+	if fi.Decl.Recv != nil && len(fi.Decl.Recv.List) > 0 && len(fi.Decl.Recv.List[0].Names) > 0 && recv != nil {
+		if obj := c.info.Defs[fi.Decl.Recv.List[0].Names[0]]; obj != nil {
+			st.declare(obj, recv)
+		}
+	}
+	ai := 0
+	for _, fl := range fi.Decl.Type.Params.List {
+		for _, nm := range fl.Names {
+			if ai < len(args) {
+				if obj := c.info.Defs[nm]; obj != nil && nm.Name != "_" {
+					st.declare(obj, args[ai])
+				}
+			}
+			ai++
+		}
+		if len(fl.Names) == 0 {
+			ai++
+		}
+	}
+	var named []types.Object
+	if fi.Decl.Type.Results != nil {
+		for _, fl := range fi.Decl.Type.Results.List {
+			for _, nm := range fl.Names {
+				if obj := c.info.Defs[nm]; obj != nil {
+					st.declare(obj, c.zeroValue(obj.Type()))
+					named = append(named, obj)
+				}
+			}
+		}
+	}
+	paths := 0
+	var outSt *State
+	var outVals []Value
+	fr := &frame{c: c}
+	fr.ret = func(s *State, vals []Value) {
+		paths++
+		outSt, outVals = s, vals
+		if len(vals) == 0 && len(named) > 0 {
+			outVals = nil
+			for _, o := range named {
+				outVals = append(outVals, s.vars[o])
+			}
+		}
+	}
+	c.execBlock(fr, fi.Decl.Body.List, st, func(s *State) {
+		paths++
+		outSt = s
+		outVals = nil
+		for _, o := range named {
+			outVals = append(outVals, s.vars[o])
+		}
+	})
+	if paths != 1 {
+		panic(verr("call to %s which has no contract: the helper has %d return paths, only straight-line helpers are executed in place (at %s)", fi.Key, paths, c.prog.pos(at)))
+	}
+	if outSt != st {
+		*st = *outSt
+	}
+	if len(st.scope) > depth {
+		st.scope = st.scope[:depth]
+	}
+	c.assumed = append(c.assumed, "helper "+shortPkg(fi.Key)+" (no contract) executed in place")
+	return outVals
 }
